@@ -495,3 +495,94 @@ class WriteAttributesStub2(Contract):
 
 InitGeoh5.uses = (WriteAttributesStub2,)
 CONTRACTS = CONTRACTS + [WriteAttributesStub2, InitGeoh5]
+
+
+class SaveChildStub(Contract):
+    """call summary of the recursive H5Writer.save_entity(child) inside save_entity"""
+    target = "geoh5py/io/h5_writer.py::H5Writer.save_entity"
+    variant = "recursive-call-summary"
+    symbolic = False
+    props = ()
+
+    def apply(self, I, args, kwargs):
+        ents = [x for x in list(args) + list(kwargs.values()) if isinstance(x, AbsObj)]
+        I.event("save_child", entity=ents[0] if ents else None, add_children=kwargs.get("add_children", args[4] if len(args) > 4 else True))
+        return I.ctx.env["we"](I, args, kwargs)
+
+
+class WriteToParentStub(Contract):
+    target = "geoh5py/io/h5_writer.py::H5Writer.write_to_parent"
+    symbolic = False
+    props = ()
+
+    def apply(self, I, args, kwargs):
+        ents = [x for x in list(args) + list(kwargs.values()) if isinstance(x, AbsObj)]
+        I.event("write_to_parent", entity=ents[0] if ents else None, recursively=kwargs.get("recursively", args[4] if len(args) > 4 else False))
+        return None
+
+
+class SaveEntity(Contract):
+    """save_entity writes the entity, then -- whether or not the entity itself was already stored --
+    saves every child that is not a property group (recursively, children included), and links the
+    entity under its parent.  This is what lets the final save of the tree on close() reach
+    entities created without write-through under parents that are on file."""
+    target = "geoh5py/io/h5_writer.py::H5Writer.save_entity"
+    props = ("C01", "C09")
+
+    def cases(self):
+        return [(pk, add) for pk in ("group", "object", "root") for add in (True, False, "default")]
+
+    def setup(self, ctx):
+        from geoh5py.groups import PropertyGroup
+        from geoh5py.io.h5_writer import H5Writer
+        from pyvc.values import PList
+
+        f = F(ctx)
+        pk, add = ctx.case
+        me = entity(ctx, pk, "entity")
+        me.attrs["on_file"] = sym("entity_on_file", "bool")
+        kids = [entity(ctx, "data", "data-child", parent=me)]
+        kids.append(AbsObj("property-group", {"uid": sym("pg_uid", "uid"), "name": sym("pg_name", "str"), "parent": me, "on_file": sym("pg_on_file", "bool")}, cls=PropertyGroup))
+        if pk != "object":
+            kids.append(entity(ctx, "object", "object-child", parent=me))
+            kids.append(entity(ctx, "group", "group-child", parent=me))
+        for i, k in enumerate(kids):
+            if k.cls is not PropertyGroup:
+                k.attrs["on_file"] = sym(f"child{i}_on_file", "bool")
+        me.attrs["children"] = PList(kids)
+        en = z3.Int(fresh_name("entity_node"))
+        ctx.assume(z3.And(en >= 1, en < f.st.next))
+
+        def write_entity(I, a, kw):
+            ents = [x for x in list(a) + list(kw.values()) if isinstance(x, AbsObj)]
+            I.event("write_entity", entity=ents[0] if ents else None)
+            return H5Node(f.st, en)
+
+        ctx.env.update(f=f, me=me, kids=kids, we=write_entity, en=en)
+        args = [H5Writer, f.file, me]
+        kw = {} if add == "default" else {"add_children": add}
+        return args, kw
+
+    def post(self, ctx, result):
+        from geoh5py.groups import PropertyGroup
+
+        e = ctx.env
+        pk, add = ctx.case
+        ev = ctx.path.events
+        writes = [i for i, (k, p) in enumerate(ev) if k == "write_entity" and p["entity"] is e["me"]]
+        saved = [(i, p) for i, (k, p) in enumerate(ev) if k == "save_child"]
+        links = [(i, p) for i, (k, p) in enumerate(ev) if k == "write_to_parent" and p["entity"] is e["me"]]
+        ctx.oblige("the-entity-itself-is-written-once", len(writes) == 1)
+        ctx.oblige("returns-the-entitys-node", isinstance(result, H5Node) and result.node is e["en"])
+        ctx.oblige("the-entity-is-linked-under-its-parent", len(links) == 1 and links[0][1]["recursively"] is False)
+        want = [k for k in e["kids"] if k.cls is not PropertyGroup] if add in (True, "default") else []
+        for k in want:
+            n = [i for i, p in saved if p["entity"] is k]
+            ctx.oblige(f"child-saved-whatever-is-already-stored[{k.tag}]", len(n) == 1 and bool(writes) and writes[0] < n[0] and all(p["add_children"] is True for i, p in saved if p["entity"] is k),
+                       note=f"save_entity(add_children={add}) on a {pk} did not pass its child {k.tag} to save_entity (entity.on_file and child.on_file are unconstrained booleans)")
+        ctx.oblige("nothing-but-the-wanted-children-is-saved", all(any(p["entity"] is k for k in want) for i, p in saved))
+
+
+SaveEntity.uses = (WriteEntityStub, SaveChildStub, WriteToParentStub)
+SaveEntity.trusted = ("write_entity / write_to_parent / the recursive save_entity are call summaries here (their own contracts: WriteEntity, WriteToParent, this contract)",)
+CONTRACTS = CONTRACTS + [SaveChildStub, WriteToParentStub, SaveEntity]
